@@ -355,6 +355,8 @@ class Calls:
             ex2['result'] = env_post.wrap(ex.read(result.path))
         S.MODE[0] = 'assume'
         for lab, e in c.ensures:
+            if lab.startswith('hint:'):
+                continue      # proof hints speak about the callee's own variables
             fe = S.spec_eval(e, env_post, ex2)
             if ghosts and any(str(g) in str(fe) for g in ghosts):
                 # proved for arbitrary ghost values in their range: holds for all of them
@@ -409,6 +411,9 @@ class Calls:
             lo, hi = int_range(sh[1], sh[2])
             ex.assume(z3.And(v >= lo, v <= hi))
         elif sh[0] == 'struct' and isinstance(v, SVal):
+            if sh[1] in ('std::list', 'std::unordered_map'):
+                from . import containers
+                containers.type_inv(ex, v, sh)
             for fn_, fs in sh[2]:
                 if fn_ in v.f:
                     self.type_inv(ex, v.f[fn_], fs)
